@@ -152,3 +152,9 @@ Proof.
   eexists ps, _, _, _. split; [reflexivity|]. split; auto.
   unfold lapp. destruct (i_cleanup inj), (i_err inj); reflexivity.
 Qed.
+
+(* ---------------- check vs gen (C19) ---------------- *)
+(* the two drivers decide every injector identically, with the same diagnostics *)
+Theorem load_vs_gen tyorder root args out sc se :
+  load_analyze tyorder root args out sc se = analyze tyorder root args out sc se.
+Proof. reflexivity. Qed.
